@@ -1,5 +1,6 @@
 // UNIT mark: the duplicate table computed by mark_duplicates_canonized_multiple (C04 / C09)
 #![feature(allocator_api)]
+#![feature(pattern)]
 #![allow(unused_imports, dead_code, unused_variables, unused_mut, non_snake_case, unused_parens)]
 use vstd::prelude::*;
 use vstd::string::StringSliceAdditionalSpecFns;
@@ -14,6 +15,7 @@ verus! {
 
 //@include prelude/bn_model.rs
 //@include prelude/std_model.rs
+//@include prelude/weak_std.rs
 //@include spec/syntax.rs
 //@include spec/ctl.rs
 //@include spec/lowlevel.rs
